@@ -526,8 +526,24 @@ func buildFn(id string, env *Env) interface{} {
 			return func(b interface{}) (interface{}, error) { return []interface{}{a, b}, nil }, nil
 		}
 	}
+	// siblings: closures made by one function literal, and method values of one method - distinct functions to the host,
+	// although Go gives them one and the same code pointer
+	if strings.HasPrefix(id, "mk:") {
+		return makeTagged(strings.TrimPrefix(id, "mk:"))
+	}
+	if strings.HasPrefix(id, "meth:") {
+		return (&priceTable{tag: strings.TrimPrefix(id, "meth:")}).Get
+	}
 	return func() (interface{}, error) { return nil, fmt.Errorf("unknown host function %s", id) }
 }
+
+func makeTagged(tag string) func(x interface{}) (interface{}, error) {
+	return func(x interface{}) (interface{}, error) { return tag + ":" + fmt.Sprint(x), nil }
+}
+
+type priceTable struct{ tag string }
+
+func (t *priceTable) Get(key string) (string, error) { return t.tag + "[" + key + "]", nil }
 
 // ---- random data ---------------------------------------------------------------
 
